@@ -22,7 +22,8 @@ let dump buf r adm (s : state) =
   Buffer.add_char buf '|';
   Buffer.add_string buf (join (List.map (fun (i, _) -> dec_of_n i) s.doomed))
 
-let one s o = let ((s', r), ev) = step false s o in (s', r, ev)
+(* code_guard = the cancel-path guard of the current code (>=, F4 repaired) *)
+let one s o = let ((s', r), ev) = step code_guard s o in (s', r, ev)
 
 let run = function
   | "h" :: size0 :: toks ->
